@@ -88,8 +88,8 @@ prop("C15", "exploration",
      "block-stream reader/writer, differential on damaged streams",
      "Generated payloads around the chunk size as 1..8 buffers, conforming server streams with arbitrary blocks and "
      "chunking, and truncations/substitutions/insertions/deletions; four oracles as in DESIGN.md C15.",
-     "Trusted: golang/snappy for chunk payloads on both sides (framing is independent); streams declaring a block "
-     "> 64 MiB are skipped (resource exhaustion is outside the statement).",
+     "Trusted: golang/snappy for chunk payloads on both sides (framing is independent); decoding n bytes may allocate at "
+     "most 256 MiB + 128 n (alloc-bomb otherwise).",
      [
          {"test": "TestC15_Compression", "quick": {"checks": 8000, "shards": 4, "timeout": 200},
           "thorough": {"checks": 80000, "shards": 16, "timeout": 1500}},
@@ -261,8 +261,8 @@ prop("C11", "exploration",
      "decoders and to the reader's receive step with calls outstanding; buffers have cap == len so that any read "
      "beyond the received data panics; oracle: no panic, termination, no addressed call left without result or error.",
      "Trusted: the hook VerifReceive registers calls exactly as send() does; duplicate results are drained as a waiting "
-     "caller would. Inputs declaring a compressed block > 2 MiB (C15: 64 MiB) are skipped and counted (resource exhaustion is "
-     "outside the statement).",
+     "caller would. Decoding n bytes may allocate at most 256 MiB + 128 n (a length declared inside the data must be checked "
+     "against the data before memory is reserved for it): more is reported as alloc-bomb.",
      [
          {"test": "TestC11_ClientDecoders", "quick": {"checks": 3000, "shards": 4, "timeout": 300},
           "thorough": {"checks": 100000, "shards": 16, "timeout": 1500}},
